@@ -15,6 +15,7 @@ import (
 	"io"
 	mrand "math/rand/v2"
 	"sort"
+	"strings"
 	"sync"
 	"testing"
 	"time"
@@ -126,6 +127,9 @@ func vsProxy(s *verifsim.Sim, p *vsPeer, self *verifnet.Host, honest, other peer
 			_ = cs.Reset()
 			return
 		}
+		// every exchange takes simulated time: without latency a retry loop against a peer that
+		// keeps misbehaving would spin at one instant and its deadline would never arrive
+		time.Sleep(300 * time.Millisecond)
 		switch b {
 		case bSilent:
 			time.Sleep(10 * time.Minute)
@@ -231,7 +235,7 @@ func vsGetterWorld(s *verifsim.Sim) {
 	const height = 9
 	npeers := s.Range(1, 4, "npeers")
 	scenario := s.ChooseW([]int{4, 3, 2, 1}, "scenario") // 0 arbitrary scripts, 1 eventually honest, 2 everyone says not-found, 3 all honest
-	s.Cfg["ods_width"], s.Cfg["npeers"], s.Cfg["scenario"] = w, npeers, []string{"arbitrary", "eventually-honest", "all-not-found", "all-honest"}[scenario]
+	s.Cfg["ods_width"], s.Cfg["npeers"], s.Cfg["scenario"] = w, npeers, []string{"arbitrary", "one-honest-peer", "all-not-found", "all-honest"}[scenario]
 
 	net := verifnet.NewNet()
 	// honest sources
@@ -268,6 +272,13 @@ func vsGetterWorld(s *verifsim.Sim) {
 	protos := []string{"sample_v0", "row_v0", "nd_v0", "eds_v0", "rangeNamespaceData_v0"}
 	var ps []*vsPeer
 	scripts := map[string][]string{}
+	honestIdx := -1
+	if scenario == 1 {
+		if npeers < 2 {
+			npeers = 2
+		}
+		honestIdx = s.Choose(npeers, "honest_peer")
+	}
 	for i := 0; i < npeers; i++ {
 		p := &vsPeer{id: peer.ID(fmt.Sprintf("peer%d", i))}
 		p.host = net.NewHost(p.id, "/ip4/127.0.0.1/tcp/7")
@@ -279,13 +290,16 @@ func vsGetterWorld(s *verifsim.Sim) {
 				b = bNotFound
 			case 3:
 				b = bHonest
+			case 1:
+				// eventually honest: every misbehaviour answers (silence legitimately eats the deadline)
+				b = s.ChooseW([]int{4, 1, 1, 0, 1, 1, 1, 1, 2, 1, 2, 2, 2}, "behaviour")
 			default:
 				b = s.ChooseW([]int{4, 1, 1, 1, 1, 1, 1, 1, 2, 1, 2, 2, 2}, "behaviour")
 			}
 			p.script = append(p.script, b)
 		}
-		if scenario == 1 {
-			p.script = append(p.script, bHonest) // the last entry repeats forever
+		if scenario == 1 && i == honestIdx {
+			p.script = []int{bHonest} // one peer is honest throughout
 		}
 		for _, b := range p.script {
 			scripts[string(p.id)] = append(scripts[string(p.id)], vsBehaviourNames[b])
@@ -320,9 +334,9 @@ func vsGetterWorld(s *verifsim.Sim) {
 	}
 	s.Cfg["wiring"] = []string{"shrex", "cascade[shrex]", "cascade[store-miss,shrex]"}[wiring]
 	hdr := verifhdr.MakeHeader(height, time.Now(), sq.Roots)
-	deadline := []time.Duration{2 * time.Second, 20 * time.Second, 3 * time.Minute, 10 * time.Minute}[s.Choose(4, "deadline")]
+	deadline := []time.Duration{2 * time.Second, 20 * time.Second, 90 * time.Second, 4 * time.Minute}[s.Choose(4, "deadline")]
 	if scenario == 1 || scenario == 3 {
-		deadline = 30 * time.Minute // generous: an honest answer must get through
+		deadline = 10 * time.Minute // generous: an honest answer must get through
 	}
 	s.Cfg["deadline"] = deadline.String()
 	call := s.Choose(5, "call")
@@ -474,13 +488,22 @@ func vsGetterWorld(s *verifsim.Sim) {
 	switch scenario {
 	case 1, 3:
 		if callErr != nil {
-			s.Violate("c06-honest-answer-not-accepted", vsWord(what), "%s via %s failed with %v although every peer ends up answering honestly and the deadline is %v; peers answered %s", what, s.Cfg["wiring"], callErr, deadline, hist)
+			s.Violate("c06-honest-answer-not-accepted", vsWord(what), "%s via %s failed with %s although an honest peer was available throughout (scenario %v) and the deadline is %v; peers answered %s", what, s.Cfg["wiring"], vsShort(callErr), s.Cfg["scenario"], deadline, hist)
 		}
 	case 2:
-		if callErr == nil {
-			s.Violate("c06-not-found-reported-as-success", vsWord(what), "%s succeeded although every peer answered NOT_FOUND", what)
-		} else if !errors.Is(callErr, shwap.ErrNotFound) {
-			s.Violate("c06-not-found-misreported", vsWord(what), "%s via %s: every peer answered NOT_FOUND but the error is not ErrNotFound: %v", what, s.Cfg["wiring"], callErr)
+		total := 0
+		for _, p := range ps {
+			total += len(served[string(p.id)])
+		}
+		switch {
+		case total == 0:
+			// nothing had to be fetched (e.g. a namespace outside every row's range)
+		case callErr == nil:
+			s.Violate("c06-not-found-reported-as-success", vsWord(what), "%s succeeded although every peer answered NOT_FOUND; peers answered %s", what, hist)
+		case errors.Is(callErr, shrex.ErrInvalidResponse) || errors.Is(callErr, shwap.ErrFailedVerification):
+			s.Violate("c06-not-found-reported-as-corruption", vsWord(what), "%s via %s: every peer answered NOT_FOUND but the error classifies the response as invalid: %v", what, s.Cfg["wiring"], callErr)
+		case !errors.Is(callErr, shwap.ErrNotFound) && !errors.Is(callErr, context.DeadlineExceeded) && !errors.Is(callErr, context.Canceled):
+			s.Violate("c06-not-found-misreported", vsWord(what), "%s via %s: every peer answered NOT_FOUND, the call returned before its deadline, but the error is not ErrNotFound: %v", what, s.Cfg["wiring"], callErr)
 		}
 	}
 	_ = sg.Stop(context.Background())
@@ -502,6 +525,17 @@ func (vsLocalMiss) GetNamespaceData(context.Context, *header.ExtendedHeader, lib
 }
 func (vsLocalMiss) GetRangeNamespaceData(context.Context, *header.ExtendedHeader, int, int) (shwap.RangeNamespaceData, error) {
 	return shwap.RangeNamespaceData{}, shwap.ErrNotFound
+}
+
+func vsShort(err error) string {
+	if err == nil {
+		return "<nil>"
+	}
+	x := strings.ReplaceAll(err.Error(), "\n", " | ")
+	if len(x) > 300 {
+		x = x[:300] + "..."
+	}
+	return x
 }
 
 func vsWord(x string) string {
